@@ -378,7 +378,7 @@ func (e *Exec) load(s *State, addr Val, t types.Type) Val {
 
 // facts about package-level variables: exported error sentinels are non-nil and pairwise distinct
 func (e *Exec) globalFacts(a GlobalAddr, t types.Type, v Val) {
-	if isIface(t) && types.Identical(t, types.Universe.Lookup("error").Type()) {
+	if isErrorIface(t) {
 		ag := v.(*Agg)
 		e.declOwned(ag.F[1].(Scalar).T, fmt.Sprintf("(assert (and (not (= %s 0)) (not (= %s null))))", ag.F[0].(Scalar).T, ag.F[1].(Scalar).T))
 		e.errGlobals = append(e.errGlobals, ag.F[1].(Scalar).T)
